@@ -26,11 +26,11 @@ func init() {
 // in one object and no deterministic scheduler of ours sits in between (real
 // goroutines, real parallelism, no model: monitors only).
 //
-//  - C11: two writers of one HttpContext: exactly one response goes out.
-//  - C17: concurrent CORS preflights with different origins through one policy:
-//    every response names its own request's origin, or none.
-//  - C03: an application Close(true) and a close cause from the peer arriving together on fresh
-//    sessions: the session ends closed, with exactly one close event.
+//   - C11: two writers of one HttpContext: exactly one response goes out.
+//   - C17: concurrent CORS preflights with different origins through one policy:
+//     every response names its own request's origin, or none.
+//   - C03: an application Close(true) and a close cause from the peer arriving together on fresh
+//     sessions: the session ends closed, with exactly one close event.
 func famRace(t *testing.T, r *Rec) {
 	raceHttpContext(r)
 	raceCors(r)
@@ -43,55 +43,59 @@ func famRace(t *testing.T, r *Rec) {
 // every lookup, however many lookups, counts and walks of the table run at the same moment — the first long poll and the
 // first upload of a fresh session arrive back to back — and no lookup ever costs another entry of the table.
 func raceMapLookups(r *Rec) {
-	rounds := 30000
+	// each round also counts the table (linear in its size), so a run costs rounds squared: the thorough tier takes
+	// several tables of the quick tier's size instead of one ten times as large
+	rounds, tables := 30000, 1
 	if r.thorough() {
-		rounds = 300000
+		tables = 6
 	}
-	m := &types.Map[int, int]{}
 	bad := ""
-	for i := 0; i < rounds && bad == ""; i++ {
-		m.Store(i, i) // a fresh entry: it sits in the dirty half until a miss or a walk promotes it
-		var wg sync.WaitGroup
-		var miss atomic.Int32
-		look := func(k int) {
-			defer wg.Done()
-			if v, ok := m.Load(k); !ok || v != k {
-				miss.Add(1)
+	for tb := 0; tb < tables && bad == ""; tb++ {
+		m := &types.Map[int, int]{}
+		for i := 0; i < rounds && bad == ""; i++ {
+			m.Store(i, i) // a fresh entry: it sits in the dirty half until a miss or a walk promotes it
+			var wg sync.WaitGroup
+			var miss atomic.Int32
+			look := func(k int) {
+				defer wg.Done()
+				if v, ok := m.Load(k); !ok || v != k {
+					miss.Add(1)
+				}
 			}
-		}
-		start := make(chan struct{})
-		wg.Add(6)
-		for k := 0; k < 3; k++ {
-			go func() { <-start; look(i) }()
-		}
-		go func() { defer wg.Done(); <-start; m.Load(-1 - i) }() // a lookup of an id nobody has: a miss, which may promote
-		go func() { defer wg.Done(); <-start; m.Load(-2 - i) }()
-		go func() {
-			defer wg.Done()
-			<-start
-			if i%2 == 0 {
-				m.Len()
-			} else {
+			start := make(chan struct{})
+			wg.Add(6)
+			for k := 0; k < 3; k++ {
+				go func() { <-start; look(i) }()
+			}
+			go func() { defer wg.Done(); <-start; m.Load(-1 - i) }() // a lookup of an id nobody has: a miss, which may promote
+			go func() { defer wg.Done(); <-start; m.Load(-2 - i) }()
+			go func() {
+				defer wg.Done()
+				<-start
+				if i%2 == 0 {
+					m.Len()
+				} else {
+					m.Range(func(int, int) bool { return true })
+				}
+			}()
+			close(start)
+			wg.Wait()
+			if miss.Load() > 0 {
+				bad = fmt.Sprintf("round %d: %d of three lookups of the entry just stored did not find it", i, miss.Load())
+			} else if n := m.Len(); n != i+1 {
+				bad = fmt.Sprintf("round %d: the table holds %d entries, %d were stored and none deleted", i, n, i+1)
+			} else if i > 0 {
+				if _, ok := m.Load(i / 2); !ok {
+					bad = fmt.Sprintf("round %d: entry %d, stored long ago and never deleted, is gone", i, i/2)
+				}
+			}
+			if i%512 == 511 { // keep the table small: the race is about fresh entries
+				m.Clear()
+				for k := 0; k <= i; k++ {
+					m.Store(k, k)
+				}
 				m.Range(func(int, int) bool { return true })
 			}
-		}()
-		close(start)
-		wg.Wait()
-		if miss.Load() > 0 {
-			bad = fmt.Sprintf("round %d: %d of three lookups of the entry just stored did not find it", i, miss.Load())
-		} else if n := m.Len(); n != i+1 {
-			bad = fmt.Sprintf("round %d: the table holds %d entries, %d were stored and none deleted", i, n, i+1)
-		} else if i > 0 {
-			if _, ok := m.Load(i / 2); !ok {
-				bad = fmt.Sprintf("round %d: entry %d, stored long ago and never deleted, is gone", i, i/2)
-			}
-		}
-		if i%512 == 511 { // keep the table small: the race is about fresh entries
-			m.Clear()
-			for k := 0; k <= i; k++ {
-				m.Store(k, k)
-			}
-			m.Range(func(int, int) bool { return true })
 		}
 	}
 	r.scenarios++
